@@ -45,3 +45,7 @@ def indices_crosscheck():
                         fails.append(rtc.Failure("model:slice.indices", {"slice": (a, b, c), "n": n}, "exception", "encoding-disagrees-with-CPython", f"model {got}, CPython {slice(a, b, c).indices(n)}"))
     return {"function": "builtin model slice.indices vs CPython", "bounded": True, "bound": {"fields": "[-8, 8] + None", "n": "0..6"}, "cases": cases,
             "distinct_nontrivial": cases, "failures_found": len(fails), "wall_s": 0.0, "samples": [{"native_case": {"slice": [None, -3, -1], "n": 5}}], "failures": fails[:3]}
+
+
+# thorough tier: deliberate edits that must turn an obligation red (applied to a scratch copy, never to /repo)
+MUTATIONS = [('contracts.slicing', 'normalize_slice', 'dask/array/slicing.py', '            if stop >= dim:\n                stop = None', '            if stop > dim:\n                stop = None\n            if stop == dim:\n                stop = dim - 1')]
